@@ -1320,7 +1320,12 @@ func (f *FnVC) next(x *ssa.Next) {
 				vis := f.st.get(vh)
 				f.fact(sImp(okc, sNot(sSel(vis, out[1].T))))
 				ks := f.sorts.sortOf(mt.Key())
-				f.fact(sImp(sNot(okc), "(forall ((k "+ks+")) (! (=> "+sAnd("(not (= "+m+" 0))", sSel(sSel(f.st.get(md), m), "k"))+" (select "+vis+" k)) :pattern ((select "+vis+" k)) :pattern ("+sSel(sSel(f.st.get(md), m), "k")+")))"))
+				pats := ":pattern ((select " + vis + " k))"
+				if f.c != nil && f.c.DomainTrigger {
+					// contract option `domain trigger`: facts about m[f(j)] meet the exit fact as well
+					pats += " :pattern (" + sSel(sSel(f.st.get(md), m), "k") + ")"
+				}
+				f.fact(sImp(sNot(okc), "(forall ((k "+ks+")) (! (=> "+sAnd("(not (= "+m+" 0))", sSel(sSel(f.st.get(md), m), "k"))+" (select "+vis+" k)) "+pats+"))"))
 				nv := f.freshConst("visited", "(Array "+ks+" Bool)")
 				f.fact(sEq(nv, sIte(okc, sStore(vis, out[1].T, "true"), vis)))
 				f.setHeap(vh, nv)
